@@ -270,6 +270,8 @@ pub struct PeerCfg {
     /// scripted server: answer each request with 200 + END_STREAM automatically
     pub respond: bool,
     pub max_frame: usize,
+    /// C08: corrupt the peer's byte stream after `after` octets: (seed, after, one octet in `one_in` is hit)
+    pub mutate: Option<(u64, usize, u32)>,
 }
 
 #[derive(Serialize, Deserialize, Clone, Debug, Default)]
